@@ -582,6 +582,13 @@ fn has_sr_candidates(g: &RefGrammar) -> bool {
 
 pub fn run(ctx: Ctx, mode: Mode) -> i32 {
     if let Some(case) = load_replay(&ctx) {
+        if case.get("grammar").is_none() {
+            // a case of the %expect clause: the (few dozen) compile-time builds are run again and
+            // only the stored case is kept
+            ctx.replay_only(&["detail"], &case);
+            check_expect(&ctx);
+            return ctx.finish(json!({"states":1,"transitions":1,"traces_validated_against_impl":1,"samples":[case]}), &[], false);
+        }
         let g = replay_grammar(&case);
         check_spec(&ctx, mode, &g);
         return ctx.finish(json!({"states":1,"transitions":1,"traces_validated_against_impl":1,"samples":[case]}), &[], false);
